@@ -7,6 +7,10 @@ CHECKS = {
    text="TLC enumerates every request history of the 3-state reference machine (ServerSM) up to depth 4/5 over the 9-symbol alphabet of the property and checks ForwardOnly/WriteOnce on it; every history (plus random longer ones) is replayed through the real connection handler on a fake websocket and every recorded trace (replies + projected durable state after every event + restart probe) is validated by TLC against Trace_ServerSM.",
    ref="5/C10", note="fake websocket stands in for the websockets legacy protocol (refusal = 1011 closure, verified against a loopback socket); cleanup delay gated; AES/HMAC trusted",
    technique="TLA+ reference state machine, TLC-enumerated histories replayed into the handler, TLC trace validation"),
+ "C12": dict(level="model_checking",
+   text="Layer B (ServerImpl.tla: one action per await-to-await segment of create_service / the receive loop / the cleanup task, lock, turn queue, durable record) is model-checked exhaustively for 2x2 and 3x1 connections x requests against Serialised, NoRollback, WriteOnce, AckDurable, SnapFresh and (under fairness) EventuallyServed; the pre-fix model ServerImplOld must violate each clause (sensitivity). TLC-generated schedules of external events for up to 3 connections (exhaustive at small bounds, -simulate with explicit loop iterations) are executed on the real ServicesManager over a fake websocket; every reply, server closure and external event is logged in true order with the projected durable record and validated by TLC against Trace_Overlap (Layer A), ending with a restart + probe connection.",
+   ref="5/C12", note="stock asyncio loop with harness-injected iterations; fake websocket; cleanup delay is a gate; Layer B assumes asyncio ordering fact (A1) stated in the spec",
+   technique="TLA+ implementation-shaped model checked by TLC; TLC-generated schedules replayed on the real stack; TLC trace validation against Layer A"),
 }
 ALL = ["C%02d" % i for i in range(1, 21)]
 def main():
